@@ -30,8 +30,15 @@ void harness(void) {
 #endif
   for (uint32_t i = 0; i < STRIDE * H; i++) file_[off + i] = in_u8();
   int64_t px = in_irange(0, W - 1), py = in_irange(0, H - 1);
-  uint64_t tlen = in_range(0, full);
+  /* truncation: inside the headers the length is a concrete cell (TLEN), inside the pixel data it is symbolic in
+   * [header length, full] (the file model keeps header bytes concrete below that bound) */
+#ifdef TLEN
+  uint64_t tlen = TLEN < full ? TLEN : full;
   file_rewind(tlen);
+#else
+  uint64_t tlen = in_range(0, full);
+  file_rewind_min(tlen, off);
+#endif
   int64_t r = w_load(0, HFILE);
   OBS(r);
   if (tlen == full) ASSERT(r == 0, "the complete file loads");
